@@ -4,6 +4,8 @@ import (
 	"fmt"
 	"strings"
 
+	"github.com/philhassey/goatlang"
+
 	"verif/internal/core"
 	"verif/internal/gen"
 	"verif/internal/mon"
@@ -53,6 +55,9 @@ func c07Run(r *core.Run, c c07Case, forceLen, nRand int, seedIdx int) (*mon.Find
 	obs := core.NewObs(c07Budget, false, m)
 	vm := core.NewMachine(core.VMOpts{Optimize: c.Optimize, Obs: obs})
 	var o core.Outcome
+	if c.Kind == "eval" {
+		c07RegisterNatives(vm)
+	}
 	if c.Kind == "program" {
 		o = vm.LoadMain(core.MapFS(c.Files), c.Main)
 	} else {
@@ -127,6 +132,9 @@ func c07Run(r *core.Run, c c07Case, forceLen, nRand int, seedIdx int) (*mon.Find
 // c07Snippets are Eval inputs aimed at constructs whose stack effect is easy
 // to get wrong.
 var c07Snippets = []string{
+	`func c(a []int, b []int) int { return copy(a, b) }; func c2(a []int, b []int) (int, int) { n := copy(a, b); return copy(b, a), n }; s := []int{1, 2, 3, 4}; for i := 0; i < 3; i++ { n := c(s, s[1:]); p, q := c2(s[i:], s); _, _, _ = n, p, q; c(s, nil) }`,
+	`s := 0; for i := 0; i < 3; i++ { s += over1(i); over1(i); over0(i); a := over1(i)*2 + i; b, c := over2(a); _, _, _ = a, b, c; if over1(i) > 100 { break } }`,
+	`func w(n int) int { return over1(n) }; func w2(n int) (int, int) { return over2(n) }; for i := 0; i < 3; i++ { a := w(i); b, c := w2(i); w(a + b + c) }`,
 	`n := 0; func inc() int { n++; return n }; for inc(); n < 5; inc() { }; if inc(); n > 0 { n = 0 }`,
 	`func ok(a int) bool { return a > 1 }; for i := 0; i < 4; i++ { switch { case ok(i): i = i + 0; case i == 0, i == 1: i += 0; default: } }`,
 	`for i := 0; i < 4; i++ { switch i { case 1, 2, 3: if i == 2 { break }; default: if i == 0 { continue } } }`,
@@ -190,6 +198,23 @@ func c07WideProgram(rng *core.Rng, id int) *gen.Program {
 	sb.WriteString("\treturn sum\n}\n\nfunc main() {\n\tfmt.Println(caller())\n\tfmt.Println(caller())\n}\n")
 	dir := fmt.Sprintf("ref/w%06d/cmd%06d", id, id)
 	return &gen.Program{Files: map[string]string{dir + "/main.go": sb.String()}, MainDir: dir, Profile: "wide-frames"}
+}
+
+// c07RegisterNatives: host functions that leave more on the stack than they declare; the call site still
+// gets exactly what it asked for.
+func c07RegisterNatives(vm *core.Machine) {
+	// host functions that leave more on the stack than they declare: the call site still gets exactly
+	// what it asked for
+	I := goatlang.Int
+	vm.VM.Set("main.over1", goatlang.NewFunc(1, 1, func(v *goatlang.VM, args []goatlang.Value) []goatlang.Value {
+		return []goatlang.Value{I(args[0].Int() + 1), I(77), I(88)}
+	}))
+	vm.VM.Set("main.over0", goatlang.NewFunc(1, 0, func(v *goatlang.VM, args []goatlang.Value) []goatlang.Value {
+		return []goatlang.Value{I(99)}
+	}))
+	vm.VM.Set("main.over2", goatlang.NewFunc(1, 2, func(v *goatlang.VM, args []goatlang.Value) []goatlang.Value {
+		return []goatlang.Value{args[0], I(5), I(66), I(67)}
+	}))
 }
 
 func runC07(r *core.Run) {
@@ -288,6 +313,7 @@ func replayC07(r *core.Run, v *core.Violation) {
 			vm.Call("main.main", 0)
 		}
 	} else {
+		c07RegisterNatives(vm)
 		vm.Eval(core.MapFS(c.Files), c.Src)
 	}
 	if len(m.Findings) > 0 {
